@@ -250,6 +250,52 @@ def eq_covers_slots(prog: Program, res, rule: str, ci: ClassInfo, *, exceptions:
                     key_extra="eq-asymmetric-domain",
                 )
                 return
+    # a slot that is only ever read through a proper part of it (x.edges[:-1], directly or through a property such
+    # as `left`) is compared in part only: the parts that are read must add up to the whole sequence
+    cover: dict[str, set] = {}
+
+    def scan(root: ast.AST, depth: int = 0) -> None:
+        pm = parents_map(root)
+        for x in ast.walk(root):
+            if not isinstance(x, ast.Attribute):
+                continue
+            if x.attr in slots and isinstance(x.value, ast.Name):
+                par = pm.get(id(x))
+                got = {"first", "middle", "last"}
+                if isinstance(par, ast.Subscript) and par.value is x:
+                    sl = par.slice
+                    if isinstance(sl, ast.Slice) and sl.step is None:
+                        lo = sl.lower.value if isinstance(sl.lower, ast.Constant) else (None if sl.lower is None else "?")
+                        hi = sl.upper
+                        hi = (-hi.operand.value if isinstance(hi, ast.UnaryOp) and isinstance(hi.op, ast.USub) and isinstance(hi.operand, ast.Constant) else hi.value if isinstance(hi, ast.Constant) else None if hi is None else "?")
+                        if lo != "?" and hi != "?":
+                            got = {"middle"}
+                            if lo in (None, 0):
+                                got.add("first")
+                            if hi is None:
+                                got.add("last")
+                    elif isinstance(sl, ast.Constant) and sl.value == 0:
+                        got = {"first"}
+                    elif isinstance(sl, ast.UnaryOp) and isinstance(sl.op, ast.USub) and isinstance(sl.operand, ast.Constant) and sl.operand.value == 1:
+                        got = {"last"}
+                cover.setdefault(x.attr, set()).update(got)
+            elif depth < 2:
+                m_ = prog.find_method(ci, x.attr)
+                if m_ is not None and m_.is_property:
+                    scan(m_.node, depth + 1)
+
+    scan(eq.node)
+    partial = [s_ for s_ in slots if s_ in cover and cover[s_] != {"first", "middle", "last"} and s_ not in exceptions]
+    if partial and not generic:
+        lost = sorted({"first", "middle", "last"} - cover[partial[0]])
+        res.violation(
+            rule,
+            eq,
+            eq.node,
+            f"{ci.name}.__eq__ reads '{partial[0]}' only in part (its {' and '.join(lost)} element(s) are never compared): objects that differ only there compare equal",
+            key_extra=f"eq-partial-{partial[0]}",
+        )
+        return
     missing = [s for s in slots if s not in read and s not in exceptions and not generic]
     if missing:
         res.violation(rule, eq, eq.node, f"{ci.name}.__eq__ does not compare attribute(s) {missing}: objects differing only there compare equal", key_extra=f"eq-misses-{'-'.join(missing)}")
